@@ -1098,3 +1098,225 @@ def replay(ctx: Ctx, path: str) -> int:
 		return 1 if (a['error'] or 'ok') != (b['error'] or 'ok') else 0
 	ctx2 = Ctx(PROP, rec.get('tier', 'quick'), int(rec.get('seed', 0)))
 	return run(ctx2)
+
+
+# ---------------------------------------------------------------------------------------------
+# round 3: class naming (naming.py), member lookup by name (Enum.var_value), fragment post-processing (PatternParser)
+
+
+def _naming_fakes() -> dict[str, Any]:
+	import rogw.tranp.syntax.node.definition as defs
+
+	def mk(base: type, name: str) -> type:
+		return type(name, (base,), {
+			'__init__': lambda self, **kw: self.__dict__.update(kw),
+			'fullyname': property(lambda self: self.__dict__['fn']),
+			'domain_name': property(lambda self: self.__dict__['dn']),
+			'module_path': property(lambda self: self.__dict__['mp']),
+			'namespace': property(lambda self: self.__dict__.get('ns', '')),
+			'alias_embedder': property(lambda self: self.__dict__.get('emb')),
+			'parent': property(lambda self: self.__dict__['up']),
+			'as_string': property(lambda self: self.__dict__['text']),
+			'__hash__': lambda self: id(self),
+			'__eq__': lambda self, other: self is other,
+		})
+
+	return {'Class': mk(defs.Class, 'NClass'), 'Entrypoint': mk(defs.Entrypoint, 'NEntrypoint'), 'Function': mk(defs.Function, 'NFunction'), 'String': mk(defs.String, 'NString')}
+
+
+def cls_tok(c: Any) -> str:
+	emb = c.alias_embedder
+	if emb is None:
+		return f'{hx(c.fullyname)}:{hx(c.domain_name)}:~:0'
+	node = emb.arguments[0].value
+	text = node.as_string if hasattr(node, 'as_string') and not isinstance(node, str) else node
+	return f'{hx(c.fullyname)}:{hx(c.domain_name)}:{hx(text)}:{int(len(emb.arguments) == 2)}'
+
+
+def stream_naming(ctx: Ctx) -> Stream:
+	"""The REAL ClassDomainNaming on fake class nodes (nesting, prefix-sharing names, Embed.alias with and without prefix,
+	translation table hits) and on the classes of generated programs with the real i18n table; handler-less __namespace (string layer)."""
+	import rogw.tranp.syntax.node.definition as defs
+	from rogw.tranp.dsn.translation import alias_dsn
+	from rogw.tranp.semantics.reflection.helper.naming import ClassDomainNaming
+	rng = ctx.sub_rng('naming')
+	fk = _naming_fakes()
+	cases = []
+	names = ['Box', 'BoxItem', 'Item', 'Bo', 'B', 'Tree', 'TreeNode', 'Node', 'ab', 'abc', 'A_b', 'A__b', 'x', 'Box_', 'tree']
+
+	def wrap(f) -> str:
+		try:
+			return hx(f())
+		except Exception as e:  # noqa: BLE001
+			return exc_enum(e)
+
+	for i in range(ctx.scale(200, 3000)):
+		mod = rng.choice(MOD_POOL)
+		entry = fk['Entrypoint'](mp=mod)
+		depth = rng.randint(1, 4)
+		chain: list[Any] = []
+		up: Any = entry
+		path: list[str] = []
+		for d in range(depth):
+			if rng.random() < 0.15 and d < depth - 1:
+				fn = rng.choice(['f', 'make', 'ab'])
+				path.append(fn)
+				up = fk['Function'](fn=f'{mod}#' + '.'.join(path), dn=fn, mp=mod, up=up)   # a function between two classes is skipped
+				continue
+			n = rng.choice(names)
+			emb = None
+			k = rng.random()
+			if k < 0.2:
+				emb = pytypes.SimpleNamespace(arguments=[pytypes.SimpleNamespace(value=fk['String'](text=rng.choice(['Alias', 'ns::X', '', 'Box', 'a.b'])))])
+			elif k < 0.35:
+				emb = pytypes.SimpleNamespace(arguments=[pytypes.SimpleNamespace(value=fk['String'](text=rng.choice(['Pre', 'Box', 'C']))), pytypes.SimpleNamespace(value=None)])
+			ns = f'{mod}#' + '.'.join(path) if path else mod
+			path.append(n)
+			c = fk['Class'](fn=f'{mod}#' + '.'.join(path), dn=n, mp=mod, up=up, emb=emb, ns=ns)
+			chain.append(c)
+			up = c
+		target = chain[-1]
+		ancestors = chain[:-1]
+		table: dict[str, str] = {}
+		for c in chain:
+			if rng.random() < 0.2:
+				table[alias_dsn(c.fullyname)] = rng.choice(['std::string', 'Renamed', '', 'Box', 'n.s'])
+		handler = lambda key, fallback='': table.get(key, fallback)  # noqa: E731 - I18n.t
+		tr = rng.random() < 0.7
+		transpiler = (lambda node: f'"{node}"') if tr else None
+		ops = ['alias.clear', *[f"alias.add\t{hx(k[len('aliases.'):])}\t{hx(v)}" for k, v in table.items()]]
+		outs = ['ok'] * len(ops)
+		ops.append(f"naming\t{int(tr)}\t{cls_tok(target)}\t{','.join(cls_tok(a) for a in ancestors) or '~'}\t{hx(mod)}")
+		real = '|'.join([
+			wrap(lambda: ClassDomainNaming.domain_name(target, handler, transpiler)),
+			wrap(lambda: ClassDomainNaming.accessible_name(target, handler, transpiler)),
+			wrap(lambda: ClassDomainNaming.fullyname(target, handler)),
+		])
+		outs.append(both(real))
+		ops.append(f'naming.nohandler\t{hx(target.namespace)}\t{hx(mod)}')
+		try:
+			outs.append('ok ' + hx(_namespace_no_handler(target)))
+		except Exception:  # noqa: BLE001
+			outs.append('error')
+		cases.append(({'kind': 'fake', 'depth': len(chain)}, ops, outs))
+
+	# real classes of generated programs with the real translation table and the real alias transpiler
+	real_app = Real(ctx)
+	from rogw.tranp.i18n.i18n import I18n
+	from rogw.tranp.implements.cpp.transpiler.py2cpp import Py2Cpp
+	for i in range(ctx.scale(6, 60)):
+		src, _ = c08gen.generate_nest(random.Random(rng.getrandbits(48)), 1 + i % 3)
+		try:
+			module = real_app.load(src)
+			i18n = real_app.app.resolve(I18n)
+			py2cpp = real_app.app.resolve(Py2Cpp)
+		except Exception:  # noqa: BLE001
+			continue
+		classes = [n for n in module.entrypoint.procedural() if isinstance(n, defs.ClassDef)]
+		translation = i18n._I18n__translation.to
+		ops = ['alias.clear']
+		for c in classes:
+			if alias_dsn(c.fullyname) in translation:
+				ops.append(f'alias.add\t{hx(c.fullyname)}\t{hx(translation[alias_dsn(c.fullyname)])}')
+		outs = ['ok'] * len(ops)
+		for c in classes:
+			ancestors = []
+			cur = c.parent
+			while not isinstance(cur, defs.Entrypoint):
+				if isinstance(cur, defs.ClassDef):
+					ancestors.insert(0, cur)
+				cur = cur.parent
+
+			def tok(x: Any) -> str:
+				emb = x.alias_embedder
+				if emb is None:
+					return f'{hx(x.fullyname)}:{hx(x.domain_name)}:~:0'
+				node = emb.arguments[0].value
+				text = node.as_string if isinstance(node, defs.String) else py2cpp.transpile(node)[1:-1]
+				return f'{hx(x.fullyname)}:{hx(x.domain_name)}:{hx(text)}:{int(len(emb.arguments) == 2)}'
+
+			ops.append(f"naming\t1\t{tok(c)}\t{','.join(tok(a) for a in ancestors) or '~'}\t{hx(c.module_path)}")
+			outs.append(both('|'.join([
+				wrap(lambda: ClassDomainNaming.domain_name(c, i18n.t, py2cpp.transpile)),
+				wrap(lambda: ClassDomainNaming.accessible_name(c, i18n.t, py2cpp.transpile)),
+				wrap(lambda: ClassDomainNaming.fullyname(c, i18n.t)),
+			])))
+		cases.append(({'kind': 'real', 'depth': len(classes)}, ops, outs))
+	st = common.correspond('naming', cases, 'scope', classify=lambda d: f"{d['kind']}:classes={min(d['depth'], 6)}")
+	st.note = 'ClassDomainNaming.domain_name / accessible_name / fullyname with an alias handler on fake class chains (prefix-sharing names Box/BoxItem, functions between classes, Embed.alias text / prefix / empty, table hits incl. empty text) vs both layers; the handler-less __namespace vs the string layer; the classes of generated programs with the real i18n table'
+	return st
+
+
+def _namespace_no_handler(types: Any) -> str:
+	"""`ClassDomainNaming.__namespace(types, None, None)` through the name-mangled private classmethod."""
+	from rogw.tranp.semantics.reflection.helper.naming import ClassDomainNaming
+	return ClassDomainNaming._ClassDomainNaming__namespace(types, None, None)
+
+
+FRAG_WORDS = ['on', 'xon', 'on_', 'raw', 'raws', 'draw', 'ref', 'addr', 'weak', 'shared', 'const', 'items', 'keys', 'values', 'item', 'ab', 'abc', 'a__b', 'n', 'Box', 'BoxItem', 'self', 'this', 'x1', '_p']
+FRAG_OPS = ['.', '->', '::', ':', '-', '>', '..', '.->', ' ']
+
+
+def gen_fragment(rng: random.Random) -> str:
+	k = rng.random()
+	w = lambda: rng.choice(FRAG_WORDS)  # noqa: E731
+	if k < 0.45:
+		s = w()
+		for _ in range(rng.randint(0, 3)):
+			s += rng.choice(FRAG_OPS[:3] if rng.random() < 0.8 else FRAG_OPS) + w() + rng.choice(['', '', '()', '(1)', '[0]'])
+		return s + rng.choice(['', '', '()', '\n', ' ', '()\n', ';'])
+	if k < 0.7:
+		ty = rng.choice(['int', 'std::map<std::string, int>', 'inline static int', 'const A', 'A::B*', ''])
+		return f"{rng.choice(['', ' ', '\t', 'public: '])}{ty}{rng.choice([' ', '  ', '\t', ''])}{w()}{rng.choice([' ', '', '  '])}={rng.choice([' ', ''])}{w()};"
+	if k < 0.85:
+		return rng.choice(['', '.', '->', 'on()', '.on()', '::raw()', 'a', 'a.', '.a', 'a\n.b', 'a.b\n', 'a .b', 'a. b', ' = ', 'x =', ' x= 1', ' x = = 1'])
+	return ''.join(rng.choice('ab_.>-: ()=\n1') for _ in range(rng.randint(0, 10)))
+
+
+def stream_fragments(ctx: Ctx) -> Stream:
+	"""The REAL PatternParser regex helpers and Enum.var_value vs the model."""
+	import rogw.tranp.syntax.node.definition as defs
+	from rogw.tranp.implements.cpp.transpiler.py2cpp import PatternParser
+	rng = ctx.sub_rng('fragments')
+	cases = []
+
+	def grp(f, s: str) -> str:
+		try:
+			return 'ok ' + '|'.join(hx(x) for x in f(s))
+		except AttributeError:
+			return 'none'   # `None.group`: the pattern did not match
+		except Exception as e:  # noqa: BLE001
+			return exc_enum(e)
+
+	for i in range(ctx.scale(600, 8000)):
+		s = gen_fragment(rng)
+		ops = [f'frag.relay\t{hx(s)}', f'frag.dictiter\t{hx(s)}', f'frag.subrelay\t{hx(s)}', f'frag.subto\t{hx(s)}', f'frag.classvar\t{hx(s)}']
+		outs = [grp(PatternParser.break_relay, s), grp(PatternParser.break_dict_iterator, s), hx(PatternParser.sub_cvar_relay(s)), hx(PatternParser.sub_cvar_to(s)), hx(PatternParser.pluck_class_var_name(s))]
+		cases.append(({'kind': 'fragment'}, ops, outs))
+
+	# Enum.var_value on the enums of generated programs: members, and names that only share a prefix / suffix with a member
+	real = Real(ctx)
+	for i in range(ctx.scale(6, 50)):
+		src, _ = c08gen.generate_nest(random.Random(rng.getrandbits(48)), 1 + i % 2)
+		try:
+			module = real.load(src)
+		except Exception:  # noqa: BLE001
+			continue
+		for en in [n for n in module.entrypoint.procedural() if isinstance(n, defs.Enum)]:
+			members = [v.symbol.domain_name for v in en.vars]
+			values = [v.declare.value for v in en.vars]
+			ops, outs = [], []
+			for m in members:
+				for q in {m, 'x' + m, m + 'x', m[1:], m[:-1], members[0] + m, m + members[-1], ''}:
+					ops.append(f'enum.value\t{hx(q)}\t{hl(members)}')
+					try:
+						got = en.var_value(q)
+						idx = [j for j, v in enumerate(values) if v is got or v == got]
+						outs.append(both(str(idx[0]) if idx else '?'))
+					except Exception as e:  # noqa: BLE001
+						outs.append(both(exc_enum(e)))
+			if ops:
+				cases.append(({'kind': 'enum'}, ops, outs))
+	st = common.correspond('fragments', cases, 'scope', classify=lambda d: d['kind'])
+	st.note = 'PatternParser.break_relay / break_dict_iterator / sub_cvar_relay / sub_cvar_to / pluck_class_var_name on well-formed and malformed rendered fragments (words that end in on / raw, single : - >, newlines, missing parts); Enum.var_value for member names and names sharing a prefix / suffix with a member'
+	return st
